@@ -150,10 +150,12 @@ var r143Confirmed = map[string]string{
 }
 
 // The confirmed entry for DeserializeEncryptedData rests on the callee's comparison; keep that comparison honest.
-func ruleR143Witness(p *Program, r *Report) {
+func ruleR143Witness(p *Program, r *Report) { ruleContainerLengthWitness(p, r, "R14.3") }
+
+func ruleContainerLengthWitness(p *Program, r *Report, rule string) {
 	fn := p.Func("crypto.getSerializedContainerLength")
 	if fn == nil || fn.Blocks == nil {
-		r.Anchor("R14.3", "crypto.getSerializedContainerLength")
+		r.Anchor(rule, "crypto.getSerializedContainerLength")
 		return
 	}
 	param := fn.Params[0]
@@ -187,7 +189,7 @@ func ruleR143Witness(p *Program, r *Report) {
 			}
 		}
 	}
-	r.Check(ok, "R14.3", fnName(fn), "result <= len(encrypted)-header on success", p.Pos(fn.Pos()), "the success return is dominated by the false edge of `internalLength > f(len(encrypted))`", "the serialized-container length is no longer compared with the data actually held before it is used as an allocation size")
+	r.Check(ok, rule, fnName(fn), "result <= len(encrypted)-header on success", p.Pos(fn.Pos()), "the success return is dominated by the false edge of `internalLength > f(len(encrypted))`", "the serialized-container length is no longer compared with the data actually held before it is used as an allocation size")
 }
 
 func backClosureWithLen(v ssa.Value) map[ssa.Value]bool {
